@@ -24,14 +24,14 @@ impl ModelRng {
 }
 impl rand_core::RngCore for ModelRng {
     fn next_u32(&mut self) -> u32 {
-        assert!(false, "infallible RNG interface used (next_u32)");
+        kani::assert(false, "C12: infallible RNG interface used (next_u32)");
         0
     }
     fn next_u64(&mut self) -> u64 {
-        assert!(false, "infallible RNG interface used (next_u64)");
+        kani::assert(false, "C12: infallible RNG interface used (next_u64)");
         0
     }
-    fn fill_bytes(&mut self, _d: &mut [u8]) { assert!(false, "infallible RNG interface used (fill_bytes)"); }
+    fn fill_bytes(&mut self, _d: &mut [u8]) { kani::assert(false, "C12: infallible RNG interface used (fill_bytes)"); }
     fn try_fill_bytes(&mut self, d: &mut [u8]) -> Result<(), rand_core::Error> {
         self.calls += 1;
         self.last_len = d.len();
